@@ -132,7 +132,7 @@ def splice(case, text, depth=0):
 
 def check(ctx):
     C.extract(ctx)
-    C.prove(ctx, ["Oq3.Props.C18"])
+    C.prove(ctx, ["Oq3.Props.C18", "Oq3.Props.C18Frame", "Oq3.Props.C18Mono", "Oq3.Props.C18Equiv"])
     okb, log = C.cargo_build()
     if not okb:
         C.violation(ctx, "harness-build-failed", {"log": log[-3000:]}, no_input=True)
